@@ -127,6 +127,9 @@ if shard:
     flat = [(sid, patch, pid, what) for sid, patch, pids, what in jobs for pid in pids]
     # (the slow checks first within a shard does not matter; the jobs are dealt round robin)
     jobs = [(sid, patch, [pid], what) for k, (sid, patch, pid, what) in enumerate(flat) if k % sn == si]
+if os.environ.get("MX_LIST"):
+    print("\n".join(f"{sid} {pids[0]}" for sid, patch, pids, what in jobs))
+    sys.exit(0)
 for sid, patch, pids, what in jobs:
     if only and not re.search(only, sid):
         continue
